@@ -14,6 +14,16 @@ CLAIMS = {
          "TLC trace validation against TLA+ transcriptions of ChaCha/Salsa/HChaCha/HSalsa + TLC model checking of the counter disciplines"),
  "C04": ("all call sequences {process, process_mut, seek, clone, counter preset} and all DRG request sequences: exhaustive TLC exploration of StreamCtx (position-indexed output, involution, cache/counter consistency); TLC-generated behaviours at block size 64 replayed on the five ciphers and Drg<R>, validated byte for byte", "5 C04",
          "TLC exhaustive model checking of the stream-context machine + TLC-generated behaviours replayed + TLC trace validation"),
+ "C05": ("Poly1305 tag for every key class (seeded, all-ones, r in 0..5, clamped-bit patterns) x message class (all lengths 0..80 in thorough, saturating / wrap-around specials, long) x chunking: TLC recomputes the RFC 8439 polynomial in BigNat arithmetic; input splits are TLC-generated from the MAC object machine, which is model-checked", "5 C05",
+         "TLC trace validation against a TLA+ bignum transcription of Poly1305 + TLC-generated input splits + model checking of the MAC object machine"),
+ "C06": ("AEAD construction: every partition of AAD/data across the incremental calls is explored exhaustively on AeadCtx (MAC input stream = RFC 8439 2.8); one-shot and incremental encryption and decryption of length-boundary cases are validated byte for byte by TLC against AEAD.tla, decryption being run on the ciphertexts the implementation itself produced", "5 C06",
+         "TLC exhaustive model checking of the AEAD context machine + TLC trace validation against RFC 8439 in TLA+"),
+ "C07": ("decryption verdict = (supplied tag = RFC tag of exactly those inputs) for valid tuples and every enumerated mutation (all 128 tag bits, structured tag forgeries, bits of ct/aad/nonce/key, truncation/extension, boundary moves, length swap), one-shot and incremental: the verdict is recomputed by TLC for each mutated tuple", "5 C07",
+         "TLC trace validation of accept/reject verdicts against the recomputed RFC 8439 tag over an enumerated mutation space"),
+ "C08": ("HMAC over all 18 legacy digests (and BLAKE2 output sizes) x boundary key lengths x message chunkings: TLC recomputes RFC 2104 with the digest's block size from HMAC.tla; Hmac object machine model-checked", "5 C08",
+         "TLC trace validation against RFC 2104 in TLA+ over executable hash specifications"),
+ "C09": ("all histories of {input, result, raw_result, reset, clone} on the MAC and legacy digest objects: exhaustive TLC exploration of MacObj (four kinds) with the contract invariants; TLC-generated behaviours replayed on Hmac, Poly1305, BLAKE2 MACs and all legacy digests; TraceMac admits only the functional MAC/digest of (construction key, bytes since reset), repeated results equal or loud, input after result loud", "5 C09",
+         "TLC exhaustive model checking of the MAC/digest object machine + TLC-generated behaviours replayed + TLC trace validation of the result contract"),
 }
 NA = {}
 def main():
